@@ -283,6 +283,7 @@ def run(ctx):
     _es.check(db.tu("orcprogram-x86"), rep, "D9-COUNTERS-DEFINED", where, offset_names=_names)
     for _nm in ("orc_x86_emit_split_2_regions", "orc_x86_emit_split_3_regions"):
         _esym.check_tiling(db.func(_nm, "orcprogram-x86"), rep, "D9-REGION-TILING", where)
+    d10_partial_load_cleared(db, rep)
 
 
 def _codeptr_skips(f):
@@ -334,3 +335,55 @@ def _once_guarded(f):
             if m.c[1] is not None and any(x.k == "ReturnStmt" for x in m.c[1].walk()):
                 return True
     return False
+
+
+def d10_partial_load_cleared(db, rep, rule="D10-PARTIAL-LOAD-CLEARED"):
+    """D10: "running the same code repeatedly gives the same results".  A load rule that brings a few bytes into a vector
+    register with an insert-into-lane instruction (pinsrb/w/d/q from memory) writes that lane only; the others keep what the
+    register held before the function was called.  Opcodes that consume the whole register (the accumulating ones sum every
+    lane) then return a value that depends on what ran before.  In every x86 load rule the first insert into a register must be
+    dominated by an instruction that defines the whole register: `pxor r, r`, a movd/movq/movdq load into it, or a register copy."""
+    import re
+    from facts import init_rows
+    rows = init_rows(db.tu("orcx86insn").global_("orc_x86_opcodes"))
+
+    def row(c):
+        a = c.args()
+        v = strip_casts(a[1]).v if len(a) > 1 else None
+        return rows[v]["name"] if v is not None and 0 <= v < len(rows) else None
+    n = 0
+    for tub in ("orcrules-sse", "orcrules-mmx"):
+        tu = db.tu(tub)
+        for f in tu.main_functions():
+            calls = list({c.id: c for c in f.calls()}.values())
+            ins = [c for c in calls if c.name == "orc_x86_emit_cpuinsn_load_memoffset" and re.match(r"^pinsr[bwdq]$", row(c) or "")]
+            for c in ins:
+                reg = unparse(strip_casts(c.args()[-1]))
+                defined = False
+                for d in calls:
+                    if d.id == c.id or not f.dominates(d, c):
+                        continue
+                    nm = d.name or ""
+                    a = [unparse(strip_casts(x)) for x in d.args()]
+                    r_ = row(d) if nm.startswith("orc_x86_emit_cpuinsn") else None
+                    if nm == "orc_x86_emit_cpuinsn_size" and r_ == "pxor" and a[-1] == reg and a[-2] == reg:
+                        defined = True
+                    elif nm == "orc_x86_emit_cpuinsn_size" and r_ in ("movd", "movq", "movdqa", "movdqu") and a[-1] == reg:
+                        defined = True
+                    elif nm == "orc_x86_emit_cpuinsn_load_memoffset" and r_ in ("movd", "movq", "movdqa", "movdqu", "movhps") and a[-1] == reg:
+                        defined = True
+                    elif re.search(r"^orc_x86_emit_mov_memoffset_(sse|mmx)$", nm) and len(a) >= 5 and a[4] == reg:
+                        defined = True
+                    elif nm == "orc_x86_emit_cpuinsn_load_memoffset" and re.match(r"^pinsr[bwdq]$", r_ or "") and a[-1] == reg:
+                        defined = True          # a later lane of a register whose first insert is judged itself
+                n += 1
+                rep.saw(f)
+                rep.check(defined, rule, where(f), "%s:%s@%s" % (f.name, reg, c.line),
+                          "`%s` is defined as a whole before a lane of it is loaded" % reg,
+                          "%s loads a lane of `%s` with %s (line %s) without having cleared or fully written the register first: the other lanes keep the "
+                          "caller's data, and an opcode that uses the whole register (accw/accl sum all lanes) makes the result of the same call on the same "
+                          "data differ from run to run" % (f.name, reg, row(c), c.line), line=c.line)
+    if n < 8:
+        raise AnalysisBroken("only %d insert-into-lane loads found in the sse/mmx rules" % n)
+    return n
+
